@@ -25,6 +25,10 @@ REGEXES = {
     "nl_or_end": (rb"\n|$", False),
     "ab_or_a": (rb"ab|a", False),
     "xx": (rb"xx", True),
+    # delimiters whose match depends on what precedes the cursor position (look-behind, anchors)
+    "noesc_quote": (rb'(?<!\\)"', True),
+    "lb_semi": (rb"(?<![a-z]);", True),
+    "caret_or_comma": (rb"^;|,", False),
 }
 MARKERS = [b"\x00", b"\r\n", b";", b"ab", b"aab", b"\xff\xfe", b"::"]
 
